@@ -35,9 +35,43 @@ func sel(e ast.Expr) string {
 	return "?"
 }
 
+// pollInflightsOrder: in server/client.go, does pollInflights take the packet-id limiter's lock before it reads the queue?
+func pollInflightsOrder(path string) (known, limiterFirst bool) {
+	fset := token.NewFileSet()
+	af, err := parser.ParseFile(fset, path, nil, parser.SkipObjectResolution)
+	if err != nil {
+		fmt.Fprintln(os.Stderr, "parse:", err)
+		os.Exit(2)
+	}
+	for _, d := range af.Decls {
+		fd, ok := d.(*ast.FuncDecl)
+		if !ok || fd.Body == nil || fd.Name.Name != "pollInflights" {
+			continue
+		}
+		lock, read := token.NoPos, token.NoPos
+		ast.Inspect(fd.Body, func(n ast.Node) bool {
+			if c, ok := n.(*ast.CallExpr); ok {
+				name := sel(c.Fun)
+				if strings.HasSuffix(name, "pl.lock") && lock == token.NoPos {
+					lock = c.Pos()
+				}
+				if strings.HasSuffix(name, "queueStore.ReadInflight") && read == token.NoPos {
+					read = c.Pos()
+				}
+			}
+			return true
+		})
+		if lock == token.NoPos || read == token.NoPos {
+			return false, false
+		}
+		return true, lock < read
+	}
+	return false, false
+}
+
 func main() {
-	if len(os.Args) != 2 {
-		fmt.Fprintln(os.Stderr, "usage: lockorder server/stats.go")
+	if len(os.Args) != 2 && len(os.Args) != 3 {
+		fmt.Fprintln(os.Stderr, "usage: lockorder server/stats.go [server/client.go]")
 		os.Exit(2)
 	}
 	fset := token.NewFileSet()
@@ -124,6 +158,11 @@ func main() {
 	out["touch_reads_store"] = touch
 	out["read_holds_mu"] = read
 	out["known_shape"] = g != nil && byName["GetClientStats"] != nil && byName["packetSent"] != nil && byName["addQueueLen"] != nil
+	if len(os.Args) == 3 {
+		k, first := pollInflightsOrder(os.Args[2])
+		out["poll_inflights_known"] = k
+		out["poll_limiter_first"] = first
+	}
 	b, _ := json.MarshalIndent(out, "", " ")
 	os.Stdout.Write(b)
 	os.Stdout.WriteString("\n")
